@@ -120,16 +120,19 @@ def run(rep, tier, seed, replay):
     # reported the case is re-run ALONE in a fresh process, up to 3 times. A deterministic defect reproduces every time; a
     # load artefact does not, and the clean re-run replaces the first result. (The known stale-transfer class is exempt.)
     LIVENESS = ("liveness-stall", "liveness-stalled-leader", "hang")
-    liveness_retries, liveness_cleared = 0, 0
+    liveness_retries, liveness_cleared, cleared_cases = 0, 0, []
     for i, case in enumerate(cases):
         if not any(k in LIVENESS for k, _ in oracle(case, io[i])):
             continue
+        first = io[i]
         for _ in range(3):
             liveness_retries += 1
             r1, e1, rc1 = ltv.run_lines(impl, [case], timeout=600, env={"LTV_C01_DIRTYLOG": dirty_log})
             if len(r1) == 1 and rc1 == 0 and not any(k in LIVENESS for k, _ in oracle(case, r1[0])):
                 io[i] = r1[0]
                 liveness_cleared += 1
+                cleared_cases.append({"case": case[:300], "first_run": first.partition(" ;; ")[2][:200],
+                                      "last_snapshot": ([t for t in first.split(" ") if t.startswith("S:")] or [""])[-1][:400]})
                 break
             if len(r1) == 1:
                 io[i] = r1[0]
@@ -187,7 +190,7 @@ def run(rep, tier, seed, replay):
             theorem="coq/C01/Properties.v", found_input=False)
     stats = dict(stats)
     stats.update(liveness_retries=liveness_retries, liveness_cleared_by_rerun=liveness_cleared, dirty_starts=len(dirty_starts),
-                 dirty_start_samples=dirty_starts[:5], block_insert_ignores_stale_leftovers=repaired, totals=tot, traces_checked_by_model=len(mo), traces_rejected=rejected)
+                 dirty_start_samples=dirty_starts[:5], liveness_cleared_cases=cleared_cases[:10], block_insert_ignores_stale_leftovers=repaired, totals=tot, traces_checked_by_model=len(mo), traces_rejected=rejected)
     rep.cov.update(liveness_retries=liveness_retries, evaluations=len(cases), distinct_nontrivial=len(nontrivial),
                    rule="cases = corpus + hand list (dissimilar / leader change / leader disconnect / all-corrupt / max_failed / "
                         "malformed / unrequested / choke / out of order / crafted data whose SHA-1 agrees with the recorded one up to an early NUL byte / "
